@@ -10,7 +10,7 @@ import os
 import re
 
 from .. import corpus, env, model, refdict, render
-from ..harness import Acc, Discrepancy, hyp_search
+from ..harness import Acc, Discrepancy, hyp_each, hyp_search
 
 ID = "C05"
 RULE = ("(a) Hypothesis draws a document model and a surface (per-token keyword case, separators from spaces / tabs / form "
@@ -107,11 +107,11 @@ def _special_classes(acc, toks):
 SEP_WS = [" ", "  ", "\t", "\n", "\r\n", "\n\n", " \f ", "\n\t", "    "]
 
 
-def perturb(text, positions, ch, stats):
-    """Replace the gap in front of each (offset, keyword) by a drawn separator."""
-    out = []
+def draw_edits(text, positions, ch, stats):
+    """One edit per usable gap: (index into positions, kept prefix of the gap, new separator, new keyword spelling)."""
+    edits = []
     last = 0
-    for off, kw in positions:
+    for idx, (off, kw) in enumerate(positions):
         g = off
         while g > last and text[g - 1] in " \t\r\n\f":
             g -= 1
@@ -135,10 +135,20 @@ def perturb(text, positions, ch, stats):
         neww = word.upper() if cm == 0 else word.lower() if cm == 1 else word.capitalize()
         if neww != word:
             stats["kwcase"] = stats.get("kwcase", 0) + 1
-        out.append(text[last:g] + keep + sep + neww)
+        edits.append([idx, g, keep + sep, neww])
         stats["gaps"] = stats.get("gaps", 0) + 1
         if "\n" in sep or "\n" in keep:
             stats["lines"] = stats.get("lines", 0) + 1
+        last = off + len(kw)
+    return edits
+
+
+def apply_edits(text, positions, edits):
+    out = []
+    last = 0
+    for idx, g, sep, neww in edits:
+        off, kw = positions[idx]
+        out.append(text[last:g] + sep + neww)
         last = off + len(kw)
     out.append(text[last:])
     return "".join(out)
@@ -192,25 +202,41 @@ def keyword_positions(text, d):
 
 
 def corpus_part(acc: Acc, tier, shard, nshards):
+    """Per file: k perturbations.  A large file has thousands of gaps, more choices than one
+    Hypothesis example may hold, so the per-gap choices come from a random.Random seeded
+    with one Hypothesis-drawn integer (a pure function of that draw); a failing perturbation is then
+    minimised here by trying each of its edits alone."""
+    from hypothesis import strategies as st
+
     k = TIERS[tier]["perturb"]
     items = list(corpus.load_all(shard, nshards, acc, position=True))
 
-    def body(data):
-        ch = model.Ch(data.draw)
-        p, text, d = ch.choice(items)
+    def make_body(item):
+        p, text, d = item
         pos = keyword_positions(text, d)
-        st_ = {}
-        b = perturb(text, pos, ch, st_)
-        nf = sum(1 for x in ("comment", "kwcase", "lines") if st_.get(x))
-        case = {"file": corpus.rel(p), "b": b}
-        acc.case([corpus.rel(p), b], nf >= 2 and st_.get("gaps", 0) >= 3,
-                 sample={"file": corpus.rel(p), "perturbed_head": b[:500]})
-        acc.cls("corpus_gaps", st_.get("gaps", 0))
-        acc.cls("corpus_perturbations")
-        return compare_texts(text, b, case)
 
-    if items:
-        hyp_search(acc, ID, "corpus", shard, k * len(items), body, tier)
+        def body(data):
+            ch = model.RandCh(data.draw(st.integers(0, 2 ** 32 - 1)))
+            st_ = {}
+            edits = draw_edits(text, pos, ch, st_)
+            b = apply_edits(text, pos, edits)
+            nf = sum(1 for x in ("comment", "kwcase", "lines") if st_.get(x))
+            acc.case([corpus.rel(p), b], nf >= 2 and st_.get("gaps", 0) >= 3,
+                     sample={"file": corpus.rel(p), "perturbed_head": b[:500]})
+            acc.cls("corpus_gaps", st_.get("gaps", 0))
+            acc.cls("corpus_perturbations")
+            ds = compare_texts(text, b, {"file": corpus.rel(p), "b": b})
+            if ds:
+                for e in edits:  # minimise: one edit alone
+                    b1 = apply_edits(text, pos, [e])
+                    ds1 = compare_texts(text, b1, {"file": corpus.rel(p), "b": b1, "edit": e})
+                    if ds1:
+                        return ds1
+            return ds
+
+        return body
+
+    hyp_each(acc, ID, "corpus", shard, items, k, make_body, tier, key=lambda it: corpus.rel(it[0]))
 
 
 def replay(case):
